@@ -1,8 +1,8 @@
 package nc
 
 import (
-	"go/types"
 	"fmt"
+	"go/types"
 	"sort"
 	"strings"
 
